@@ -19,7 +19,7 @@ CONSTANTS Scripts,       \* server scripts: sequences of [op |-> "rec", pdus |->
           PollSource, ExitOn,
           GuiWrites      \* how many input writes the GUI thread attempts
 
-\* PDU tokens: <<"bmp", k>> (a bitmap update), <<"bmp3", k>> (one PDU carrying three rectangles k, k+1, k+2), <<"ctl", name>> (a slow-path PDU that produces no event:
+\* PDU tokens: <<"bmp", k>> (a bitmap update), <<"obmp", k>> (one PDU: an update of a kind the library does not implement, then bitmap k), <<"bmp3", k>> (one PDU carrying three rectangles k, k+1, k+2), <<"ctl", name>> (a slow-path PDU that produces no event:
 \* demand active, synchronize, control, font map, error info), <<"part1", k>> / <<"part2", k>> (halves of one), <<"ult">> (disconnect
 \* provider ultimatum), <<"bad_rdp">> / <<"bad_io">> (undecodable PDU whose decode error is of the library's kind / an io kind),
 \* <<"notify">> (TLS close_notify)
@@ -39,7 +39,7 @@ variables script \in Scripts,
 
 define
   SelectReady == sock # <<>> \/ sockEnd # "open" \/ (PollSource = "tls_aware" /\ tlsbuf # <<>>)
-  BitmapsOf(pdus) == SelectSeq(pdus, LAMBDA p : p[1] \in {"bmp", "part2", "bmp3"})
+  BitmapsOf(pdus) == SelectSeq(pdus, LAMBDA p : p[1] \in {"bmp", "part2", "bmp3", "obmp"})
   IdsOf(p) == IF p[1] = "bmp3" THEN <<p[2], p[2] + 1, p[2] + 2>> ELSE <<p[2]>>
   RECURSIVE Ids(_)
   Ids(pdus) == IF pdus = <<>> THEN <<>> ELSE IdsOf(Head(pdus)) \o Ids(Tail(pdus))
@@ -88,7 +88,7 @@ begin
               end if;
             end if;
  ReadOne:   if err = "none" then
-              if Head(tlsbuf)[1] = "bmp" then
+              if Head(tlsbuf)[1] = "bmp" \/ Head(tlsbuf)[1] = "obmp" then   \* obmp: an update of an unimplemented kind in front of the bitmap update, same PDU
                 forwarded := Append(forwarded, Head(tlsbuf)[2]);
               elsif Head(tlsbuf)[1] = "bmp3" then
                 forwarded := forwarded \o IdsOf(Head(tlsbuf));   \* every rectangle of the PDU, in wire order
@@ -130,7 +130,7 @@ VARIABLES pc, script, sock, sockEnd, tlsbuf, mutex, sync, sent, forwarded,
 
 (* define statement *)
 SelectReady == sock # <<>> \/ sockEnd # "open" \/ (PollSource = "tls_aware" /\ tlsbuf # <<>>)
-BitmapsOf(pdus) == SelectSeq(pdus, LAMBDA p : p[1] \in {"bmp", "part2", "bmp3"})
+BitmapsOf(pdus) == SelectSeq(pdus, LAMBDA p : p[1] \in {"bmp", "part2", "bmp3", "obmp"})
 IdsOf(p) == IF p[1] = "bmp3" THEN <<p[2], p[2] + 1, p[2] + 2>> ELSE <<p[2]>>
 RECURSIVE Ids(_)
 Ids(pdus) == IF pdus = <<>> THEN <<>> ELSE IdsOf(Head(pdus)) \o Ids(Tail(pdus))
@@ -240,7 +240,7 @@ Fill == /\ pc["rx"] = "Fill"
 
 ReadOne == /\ pc["rx"] = "ReadOne"
            /\ IF err = "none"
-                 THEN /\ IF Head(tlsbuf)[1] = "bmp"
+                 THEN /\ IF Head(tlsbuf)[1] = "bmp" \/ Head(tlsbuf)[1] = "obmp"
                             THEN /\ forwarded' = Append(forwarded, Head(tlsbuf)[2])
                                  /\ UNCHANGED << err, half >>
                             ELSE /\ IF Head(tlsbuf)[1] = "bmp3"
